@@ -526,8 +526,11 @@ class Runner:
         ev = {"property_id": self.pid, "tier": self.tier, "seed": self.seed, "level": "proof",
               "coverage": cov, "assumptions": self.assumptions, "wall_s": wall,
               "violations": len(self.violations)}
-        os.makedirs(os.path.join(VERIF, "evidence"), exist_ok=True)
-        with open(os.path.join(VERIF, "evidence", f"{self.pid}.json"), "w") as f:
+        # PGF_EVIDENCE_DIR: used only by tools/try_mutant_wt.sh so that a run against a deliberately broken scratch copy of the
+        # repository does not overwrite the evidence of the real tree
+        evdir = os.environ.get("PGF_EVIDENCE_DIR") or os.path.join(VERIF, "evidence")
+        os.makedirs(evdir, exist_ok=True)
+        with open(os.path.join(evdir, f"{self.pid}.json"), "w") as f:
             json.dump(ev, f, indent=1, default=str)
         for m in self.known_hits:
             print(m)
